@@ -293,6 +293,7 @@ func buildCase(cs caseSpec, thorough bool) *Scenario {
 		for _, d := range directedScenarios {
 			if d.name == cs.Name {
 				sc = d.mk(cs.NewState)
+				sc.Restart = cs.Case%3 == 0 // restarted copies compared in the variant without in-place restarts
 				sc.FailedOps = cs.Case%3 == 1
 				sc.RestartMode = cs.Case % 3 // variant: no restart / killed / graceful before the first revert
 			}
@@ -658,7 +659,7 @@ func main() {
 				cases = append(cases, caseSpec{Kind: "enum", NewState: ns, Seed: f.Seed, Case: i})
 			}
 		}
-		n := f.Scale(128, 2500)
+		n := f.Scale(96, 2500)
 		for i := 0; i < n; i++ {
 			cases = append(cases, caseSpec{Kind: "fork", NewState: i%2 == 0, Seed: f.Seed, Case: i})
 		}
